@@ -4,12 +4,12 @@ measurements; the recycling op mix is also covered by the E1 histories (M2 repla
 import core, eng_heap
 PROP = "C18"
 NEEDS = {"profiles": ["debug", "release"], "modelrun": True}
-RULE = ("20 periodic patterns (4 consumption modes: split_to / split / advance / split_off+replace x message, leftover and initial-capacity settings) + seeded random patterns "
-        "(message 1..5000 fixed or varying, leftover 0..m-1, initial capacity 0..64 KiB, retention window k in {0,1,2,5}, freeze+clone of parts, Bytes round trip of the recycling handle, "
+RULE = ("54 periodic patterns (4 consumption modes: split_to / split / advance / split_off+replace x message, leftover and initial-capacity settings; six ways of refilling; messages of 8192/16384/70000 bytes with an unread tail above 4 KiB; small frames with a burst frame 8..300 times as long every 5th/7th/16th round) + seeded random patterns "
+        "(message 1..70000 fixed or varying, leftover 0..m-1, bursts, initial capacity 0..64 KiB, retention window k in {0,1,2,5}, freeze+clone of parts, Bytes round trip of the recycling handle, "
         "unsplit of split parts), each for N and FACTOR*N rounds; measured per pattern: peak live bytes, byte-buffer allocations, largest capacity in the first N rounds and overall; "
         "non-trivial = pattern with more than one allocation")
 ASSUMPTIONS = ["std's Vec::reserve grows to at most max(2*cap, needed, 8) (oracle hypothesis of the theorem; implied by the measured capacities staying within the bound)",
-               "the abstract policy of Recycle.v is a second transliteration of reserve_inner; its simulation by Heap.reserve_inner is an open proof obligation (DESIGN §10)"]
+               "the abstract policy of Recycle.v is tied to Heap.reserve_inner by the simulation theorems of RecycleSim.v / RecycleRun.v (pinned)"]
 TRUSTED_EXTRA = ["harness/src/e_recycle.rs (ledger statistics per round)"]
 DIRECT = r"^c18-"
 # the clause "a reserve on an empty handle that is alone on a large-enough buffer never allocates" is evaluated on every E1 history (kind shared with C08)
